@@ -78,22 +78,6 @@ def audit_names(prop):
     return [l.split()[2] for l in open(path) if l.startswith("#print axioms ")]
 
 
-def audit_names(prop):
-    """the obligations of a property: every theorem listed in PieModel/Audit/<prop>.lean"""
-    path = os.path.join(V.LEAN, "PieModel", "Audit", f"{prop}.lean")
-    if not os.path.exists(path):
-        return []
-    return [l.split()[2] for l in open(path) if l.startswith("#print axioms ")]
-
-
-def audit_names(prop):
-    """the obligations of a property: every theorem listed in PieModel/Audit/<prop>.lean"""
-    path = os.path.join(V.LEAN, "PieModel", "Audit", f"{prop}.lean")
-    if not os.path.exists(path):
-        return []
-    return [l.split()[2] for l in open(path) if l.startswith("#print axioms ")]
-
-
 def observed_distribution(cases, impl):
     """what the generated cases actually exercised on the real crates (generator quality bounds what the
     correspondence sees)"""
@@ -216,8 +200,7 @@ def main():
         io = impl.get((c.kind, c.cid), [])
         kid = cfg.get("known_match", lambda *_: None)(c, io, model.get((c.kind, c.cid), []))
         if kid is not None and kid in known_hits:
-            known_hits[kid] += 1
-            ora_ids.add((c.kind, c.cid))
+            known_hits[kid] += 1     # NOT added to ora_ids: a model/implementation disagreement on this case is still reported
             continue
         ora_ids.add((c.kind, c.cid))
         if reported < 3:
